@@ -86,6 +86,9 @@ def run(ctx):
       stores = [x for x in walk(acc_new) if x.op == 'store' and is_const(x.args[1], 0)]
       okf = bool(stores)
       Tt = stores[0].args[2] if stores else None
+      if not okf and acc_new.op == 'list' and len(acc_new.args) == 1 and acc_new.args[0].op != 'star':
+        # written directly as the one-entry list [T]
+        okf, Tt = True, acc_new.args[0]
       ctx.ob('C12.R1d', fu.short, f'rank 1: accumulator 0 is the exact statistic {tag}', okf,
              f'for rank-1 tensors accumulator 0 must be set to the updated statistic itself; got `{show(acc_new, maxdepth=4)[:160]}`', ctx.loc(fu),
              sample='all_diagonal_statistics[0] = updated statistics')
